@@ -86,6 +86,19 @@ func (fe *FnEnc) call(ins ssa.Instruction, c *ssa.CallCommon, rt types.Type) Val
 			return Val{}
 		}
 		return fe.freshVal("noop", rt)
+	case specFn:
+		// a function value known (by its producer's contract) to compute a pure spec function
+		env := map[string]Val{}
+		var as []Expr
+		for i, a := range args {
+			n := fmt.Sprintf("zza%d", i)
+			env[n] = a
+			as = append(as, &EName{Name: n})
+		}
+		ev := fe.newEval(fe.mem, fe.mem, env)
+		ev.calleePkg = f.pkg
+		t := ev.evalTerm(&ECall{Fn: f.name, Args: as})
+		return fe.wrapTerm(fe.s.name("sf", fe.s.sortOf(rt), t), rt)
 	case *ssa.Builtin:
 		return fe.builtin(f, c, args, rt, pos)
 	case *ssa.Function:
@@ -471,6 +484,39 @@ func (fe *FnEnc) externModel(key string, f *ssa.Function, args []Val, rt types.T
 		r := s.name("bcmp", "Int", "(u_bytes_cmp "+a+" "+b+")")
 		s.assert("(and (<= (- 1) " + r + ") (<= " + r + " 1))")
 		return Val{T: rt, Term: r}, true
+	case "encoding/binary.littleEndian.PutUint64", "encoding/binary.littleEndian.PutUint32":
+		// b[k] = byte k of v, little-endian; panics unless len(b) >= width
+		if len(args) == 3 && args[1].View != nil && s.mode == "int" {
+			w := 8
+			if strings.HasSuffix(key, "32") {
+				w = 4
+			}
+			vw := args[1].View
+			fe.panicCheck("index", fmt.Sprintf("(<= %d %s)", w, vw.Len), pos)
+			x := args[2].Term
+			for k := 0; k < w; k++ {
+				bt := fmt.Sprintf("(mod (div %s %s) 256)", x, new(big.Int).Lsh(big.NewInt(1), uint(8*k)).String())
+				fe.recordMod(s.store(fe.mem, s.viewElemAddr(vw, fmt.Sprint(k)), s.name("leb", "Int", bt)))
+			}
+			return Val{}, true
+		}
+	case "encoding/binary.littleEndian.Uint64", "encoding/binary.littleEndian.Uint32":
+		if len(args) == 2 && args[1].View != nil && s.mode == "int" {
+			w := 8
+			if strings.HasSuffix(key, "32") {
+				w = 4
+			}
+			vw := args[1].View
+			fe.panicCheck("index", fmt.Sprintf("(<= %d %s)", w, vw.Len), pos)
+			var parts []string
+			for k := 0; k < w; k++ {
+				el := s.load(fe.mem, s.viewElemAddr(vw, fmt.Sprint(k)))
+				parts = append(parts, fmt.Sprintf("(* %s %s)", el, new(big.Int).Lsh(big.NewInt(1), uint(8*k)).String()))
+			}
+			r := s.name("leu", "Int", "(+ "+strings.Join(parts, " ")+")")
+			s.assumeRange(rt, r)
+			return Val{T: rt, Term: r}, true
+		}
 	case "bytes.Equal":
 		a, b := fe.valTerm(args[0]), fe.valTerm(args[1])
 		es := s.sortOf(types.Typ[types.Uint8])
@@ -859,6 +905,10 @@ func (fe *FnEnc) useContractFn(ct *Contract, callee *ssa.Function, args []Val, r
 				resVals = append(resVals, fe.freshVal("r_"+ct.Name, tup.At(i).Type()))
 			}
 			res = Val{T: rt, Tup: resVals}
+		} else if fn := ct.Opts["returns_fn"]; fn != "" {
+			// the result is a function value that computes the named spec function (e.g. a hasher)
+			res = Val{T: rt, Fn: specFn{name: fn, pkg: ct.PkgPath}}
+			resVals = []Val{res}
 		} else {
 			res = fe.freshVal("r_"+ct.Name, rt)
 			resVals = []Val{res}
@@ -986,3 +1036,6 @@ func (fe *FnEnc) calleeWritesCheck(ct *Contract, pos token.Pos) {
 
 // noopFn is a function value whose call has no effect on modelled state (context cancel functions).
 type noopFn struct{}
+
+// specFn is a function value that computes a spec-level (uninterpreted or defined) function of its arguments.
+type specFn struct{ name, pkg string }
